@@ -251,11 +251,26 @@ pub fn dies_alone<E: Engine>(e: &E, exe: &std::path::Path, case: &E::Case) -> Op
     if std::fs::write(&path, serde_json::to_string(&doc).unwrap_or_default()).is_err() {
         return None;
     }
+    // the child is watched like the workers are: a case that corrupts its process may leave it
+    // stuck (a deadlocked allocator, for one) instead of killing it
     let status = Command::new(exe)
         .args(["exec-case", &path])
         .stdout(Stdio::null())
         .stderr(Stdio::null())
-        .status();
+        .spawn()
+        .and_then(|mut child| {
+            let deadline = Instant::now() + std::time::Duration::from_secs(20);
+            loop {
+                match child.try_wait()? {
+                    Some(st) => return Ok(st),
+                    None if Instant::now() >= deadline => {
+                        let _ = child.kill();
+                        return child.wait();
+                    }
+                    None => std::thread::sleep(std::time::Duration::from_millis(20)),
+                }
+            }
+        });
     let _ = std::fs::remove_file(&path);
     match status {
         Ok(st) => {
@@ -279,14 +294,24 @@ fn run_isolated<E: Engine>(e: &E, opts: &Opts) -> Vec<Option<RunOut>> {
     let stride = opts.threads.max(1);
     let results: Mutex<Vec<Option<RunOut>>> = Mutex::new((0..n).map(|_| None).collect());
     let exe = std::env::current_exe().expect("current exe");
-    let limit = std::time::Duration::from_secs(60);
+    let limit = std::time::Duration::from_secs(30);
+    // a defect that kills or stalls the process on many cases would otherwise cost one watchdog
+    // period per case: after this many dead workers the batch stops (the violations found so far
+    // are reported; the runs not executed are counted as such)
+    let deaths = AtomicUsize::new(0);
+    let attributed = AtomicUsize::new(0);
+    const MAX_DEATHS: usize = 16;
     std::thread::scope(|s| {
         for k in 0..stride {
             let results = &results;
+            let (deaths, attributed) = (&deaths, &attributed);
             let exe = exe.clone();
             s.spawn(move || {
                 let mut after: i64 = -1;
                 loop {
+                    if deaths.load(Ordering::SeqCst) >= MAX_DEATHS {
+                        return;
+                    }
                     let mut child = match Command::new(&exe)
                         .args([
                             "worker",
@@ -381,7 +406,9 @@ fn run_isolated<E: Engine>(e: &E, opts: &Opts) -> Vec<Option<RunOut>> {
                             // alone in a fresh child
                             let case = e.generate(mix(opts.seed, i as u64));
                             let mut what = e.describe(&case);
-                            if !hung {
+                            // (attribution re-runs parts of the case in fresh processes: done for
+                            // the first deaths of a batch, the later ones name the whole case)
+                            if !hung && (!e.split_is_prefix_chain() || attributed.fetch_add(1, Ordering::SeqCst) < 64) {
                                 let parts = e.split(&case);
                                 if e.split_is_prefix_chain() && !parts.is_empty() {
                                     // longer prefixes die whenever a shorter one does: bisect
@@ -421,6 +448,10 @@ fn run_isolated<E: Engine>(e: &E, opts: &Opts) -> Vec<Option<RunOut>> {
                             });
                             results.lock().unwrap()[i] = Some(ro);
                             after = i as i64;
+                            // (only stalls are expensive; a worker that aborts does so at once)
+                            if hung {
+                                deaths.fetch_add(1, Ordering::SeqCst);
+                            }
                             // restart past the fatal case
                         }
                     }
